@@ -202,7 +202,7 @@ def harness_run(sub, profile, tier, seed, outdir, extra=(), timeout=None):
         timeout = 600 if tier == "quick" else 3000
     os.makedirs(outdir, exist_ok=True)
     cmd = [harness_bin(profile), sub, "--tier", tier, "--seed", str(seed), "--out", outdir,
-           "--shards", "16"] + list(extra)
+           "--shards", "16" if tier == "quick" else "64"] + list(extra)
     return run(cmd, cwd=ROOT, timeout=timeout)
 
 
